@@ -48,6 +48,31 @@ pub fn gen_family(family: &str, seed: u64, count: usize, malformed: bool) -> Vec
             }
         }
         "interp" => {
+            // deterministic grid first: bounded SO(2) / SE(2) / box spaces between the ends and the middle of their
+            // intervals (exact half-turn ties, motions along the boundary)
+            for sp in spaces.clone() {
+                let Ok(real) = build(&sp) else { continue };
+                let ends = |lo: f64, hi: f64| vec![lo, hi, lo + (hi - lo) / 2.0, lo + (hi - lo) / 3.0];
+                let sts: Vec<St> = match &sp {
+                    Sp::So2 { bounds: Some((lo, hi)), .. } => ends(lo.max(-PI), hi.min(PI)).into_iter().map(St::So2).collect(),
+                    Sp::Se2 { bounds: Some(b), .. } if b.len() == 3 => ends(b[2].0.max(-PI), b[2].1.min(PI)).into_iter().map(|a| St::C(vec![St::Rv(vec![b[0].0, b[1].1]), St::So2(a)])).collect(),
+                    Sp::Rv { bounds: Some(b), dim, .. } if *dim > 0 && b.iter().all(|(l, h)| l.is_finite() && h.is_finite()) => {
+                        vec![St::Rv(b.iter().map(|x| x.0).collect()), St::Rv(b.iter().map(|x| x.1).collect()), St::Rv(b.iter().map(|x| x.0 + (x.1 - x.0) / 3.0).collect())]
+                    }
+                    _ => vec![],
+                };
+                for a in &sts {
+                    for b in &sts {
+                        for t in [0.5, 0.25, 1.0 / 3.0, 0.9] {
+                            let mut f = vec![];
+                            oracle_interp(&sp, &real, a, b, t, &mut f);
+                            oracle_convex(&sp, &real, a, b, t, &mut f);
+                            push(&mut cases, case_interp(next_id(family), &sp, a, b, t, a), f);
+                        }
+                    }
+                }
+            }
+            let count = count + cases.len();
             while cases.len() < count {
                 let sp = r.pick(&spaces).clone();
                 let Ok(real) = build(&sp) else { continue };
@@ -56,12 +81,38 @@ pub fn gen_family(family: &str, seed: u64, count: usize, malformed: bool) -> Vec
                 let mut f = vec![];
                 if !malformed {
                     oracle_interp(&sp, &real, &a, &b, t, &mut f);
+                    oracle_convex(&sp, &real, &a, &b, t, &mut f);
                 }
                 push(&mut cases, case_interp(next_id(family), &sp, &a, &b, t, &a), f);
                 push(&mut cases, case_dist(next_id(family), &sp, &a, &b), vec![]);
             }
         }
         "bounds" => {
+            // deterministic grid first: every leaf space against every special state of its kind (zero / tiny /
+            // huge / non-unit quaternions, angles on and around the seam, coordinates on and beyond the bounds),
+            // and the SE(2)/SE(3)/compound spaces against a handful each
+            for sp in spaces.clone() {
+                let Ok(real) = build(&sp) else { continue };
+                let sts: Vec<St> = match &sp {
+                    Sp::So2 { .. } => angles(&mut r, true).into_iter().map(St::So2).collect(),
+                    Sp::So3 { .. } => quats(&mut r, true).into_iter().map(St::So3).collect(),
+                    Sp::Se3 { .. } => quats(&mut r, true).into_iter().map(|q| {
+                        let pool = reals(&mut r, false);
+                        St::C(vec![St::Rv(vec![*r.pick(&pool), *r.pick(&pool), *r.pick(&pool)]), St::So3(q)])
+                    }).collect(),
+                    Sp::Se2 { .. } => angles(&mut r, true).into_iter().map(|a| {
+                        let pool = reals(&mut r, false);
+                        St::C(vec![St::Rv(vec![*r.pick(&pool), *r.pick(&pool)]), St::So2(a)])
+                    }).collect(),
+                    _ => (0..8).map(|_| state_for(&sp, &mut r, true)).collect(),
+                };
+                for s in sts {
+                    let mut f = vec![];
+                    oracle_bounds(&sp, &real, &s, &mut f);
+                    push(&mut cases, case_enforce(next_id(family), &sp, &s), f);
+                }
+            }
+            let count = count + cases.len();
             while cases.len() < count {
                 let sp = r.pick(&spaces).clone();
                 let Ok(real) = build(&sp) else { continue };
@@ -259,6 +310,18 @@ pub fn gof(seed: u64, n: usize) -> (Vec<Finding>, J) {
     stats.push(("so3.cone_angle".into(), d));
     if d > critc {
         out.push(finding("C14", "not_uniform:so3_cone", format!("so3.cone_angle: KS distance {d} > {critc}")));
+    }
+    // a narrow cone away from the identity (rejection sampling accepts ~4e-4 of the draws): same conditional law
+    let m2 = 0.2;
+    let c2 = { let mut c = oxmpl::base::state::SO3State::new(0.3, -0.2, 0.5, 0.7); let k = (c.x * c.x + c.y * c.y + c.z * c.z + c.w * c.w).sqrt(); c.x /= k; c.y /= k; c.z /= k; c.w /= k; c };
+    let cone2 = oxmpl::base::space::SO3StateSpace::new(Some((c2.clone(), m2))).unwrap();
+    let n2 = (n / 8).max(2500);
+    let thn: Vec<f64> = (0..n2).map(|_| { let q = cone2.sample_uniform(&mut rng).unwrap(); cone2.distance(&c2, &q) }).collect();
+    let critn = ((2.0e9f64).ln() / (2.0 * n2 as f64)).sqrt();
+    let d = ks(thn, |t| ((t - t.sin()) / (m2 - m2.sin())).clamp(0.0, 1.0));
+    stats.push(("so3.narrow_cone_angle".into(), d));
+    if d > critn {
+        out.push(finding("C14", "not_uniform:so3_narrow_cone", format!("so3.narrow_cone_angle: KS distance {d} > {critn} (n = {n2})")));
     }
     // SE(2): components independent: x uniform, yaw uniform
     let se2 = oxmpl::base::space::SE2StateSpace::new(1.0, Some(vec![(0.0, 1.0), (0.0, 1.0), (-PI, PI)])).unwrap();
